@@ -2344,7 +2344,8 @@ class GAM(Core, MetaTermMixin):
         """
         mu = self.predict_mu(X)  # Wood pg. 198 step 1
         coef_bootstraps = [self.coef_]
-        cov_bootstraps = [load_diagonal(self.statistics_['cov'])]
+        cov = self.statistics_['cov']
+        cov_bootstraps = [load_diagonal(cov, load=np.sqrt(EPS) * self.distribution.scale)]
 
         for _ in range(n_bootstraps - 1):  # Wood pg. 198 step 2
             # generate response data from fitted model (Wood pg. 198 step 3)
@@ -2379,7 +2380,8 @@ class GAM(Core, MetaTermMixin):
 
             coef_bootstraps.append(gam.coef_)
 
-            cov = load_diagonal(gam.statistics_['cov'])
+            cov = gam.statistics_['cov']
+            cov = load_diagonal(cov, load=np.sqrt(EPS) * gam.distribution.scale)
 
             cov_bootstraps.append(cov)
         return coef_bootstraps, cov_bootstraps
